@@ -95,6 +95,9 @@ func c18Expected(dir string) ([]c18Test, error) {
 		if strings.HasSuffix(n, "~") || strings.HasSuffix(n, ".gold.v") || strings.HasSuffix(n, "_test.go") || !strings.HasSuffix(n, ".go") {
 			continue
 		}
+		if strings.HasPrefix(n, "_") || strings.HasPrefix(n, ".") {
+			continue // the go tool ignores such files: not part of the package
+		}
 		src, err := os.ReadFile(filepath.Join(dir, n))
 		if err != nil {
 			return nil, err
